@@ -1,7 +1,11 @@
 HOOK_COMMITS = []
 NOTES = ("Static analysis only. Every check decides structural necessary conditions (clauses) of its property on the "
          "current sources of /repo and does not decide the behavioural statement itself; see DESIGN.md sections 1 and 4. "
-         "Exit 2 / ANALYSIS-BROKEN means an anchor vanished or a rule matched fewer instances than its floor.")
+         "Exit 2 / ANALYSIS-BROKEN means the check cannot decide: a function or data member the rules are anchored on was renamed "
+         "or removed, a rule matched fewer instances than its floor, a unit no longer parses, or (thorough tier) the rules no longer "
+         "separate their mutant / behaviour-preserving corpus. Every property additionally carries the generic rules G1 (user-provided "
+         "move/swap members transfer every data member) and G2 (no value-returning function runs off its end) over its anchor files. "
+         "Thorough tier = quick + assert-enabled configuration + the project's own test instantiations + corpus self-test.")
 PENDING = "rules for this property are not built yet in this revision of /verif (work in progress; see DESIGN.md section 8)"
 
 CHECKS = {
@@ -10,7 +14,8 @@ CHECKS = {
           "the queue functions that run a client callback on a slot, that the last slot-word observation before the callback is "
           "acquire-effective, the version advance after it is release-effective, post-dominates the callback and never precedes it, "
           "and that concurrent try_ variants run the callback only on the success edge of the ticket CAS taken after a slot observation; "
-          "plus who-may-touch slot payload/reset/tickets and the version constants. These are necessary conditions for 'consumer sees "
+          "plus who-may-touch slot payload/reset/tickets, the version constants, the compensating batch waiting on every slot of its range, and a "
+          "batch split at the ring end continuing only after its first piece was handled completely. These are necessary conditions for 'consumer sees "
           "every producer write' and 'exclusive access'; weakened orders, dropped fences, hoisted stores and ignored CAS results are "
           "invisible to the x86 test-suite but are local shape changes seen on every path. FIFO/multiset/try_-failure clauses are not decided.",
   "note": "Trusted: clang 14 CFG of the host preprocessor branch; C++ memory-model reasoning that acquire-observation + release-advance on "
@@ -33,7 +38,9 @@ CHECKS = {
           "retry/return, creation dominates publication; who may free tables / blocks / retire lists and that the retired-table deleter "
           "never frees element blocks (the address-stability clause); timed reclamation only behind a winning CAS and a true expiry test; "
           "cooling constants (min diff - 1) * unit >= 64 s on a monotonic clock. All are necessary conditions reached only on losing-CAS "
-          "schedules or after 64 s, which no unit test stages. Run-time address identity, clock behaviour and timestamp wrap are not decided.",
+          "schedules or after 64 s, which no unit test stages. Also: a retired node is re-linked on every CAS retry, the clock is sampled after the "
+          "head it is compared with, the destructor frees every block of the current table and then the table, and blocks are freed with the "
+          "size / alignment / element range they were allocated with. Run-time address identity, clock behaviour and timestamp wrap are not decided.",
   "note": "Trusted: clang 14 CFG; operator new/delete; the 'counted for-loops run at least once' assumption used for dominance "
           "through the create/delete loops (growth is only entered with block_num < expect_block_num).",
   "technique": "static analysis: exactly-once dataflow, who-may-call, edge-guard and constant-algebra rules over CFG facts of template instantiations"},
